@@ -146,6 +146,7 @@ class Seam:
             mon.register_callback(tid, E.C_RETURN, self._icb_c)
             mon.register_callback(tid, E.JUMP, self._icb_j)
             ev |= E.PY_START | E.CALL | E.JUMP          # C_RETURN is delivered when CALL is enabled
+        self.events = ev
         mon.set_events(tid, ev)
 
     def _icb(self, code, off):
@@ -275,6 +276,40 @@ def solo_call(a5mod, seam, call, want_trace=False, cap=3_000_000):
             'isteps': len(itrace), 'itrace': itrace}
 
 
+def bulk_calls(a5mod, seam, kind, n, seed):
+    """Capacity filler: n calls about n distinct pseudo-random cells (or points), unjudged and at full
+    speed (monitoring is switched off meanwhile).  It exists to drive size-bounded caches past their
+    capacity, which short histories from a cold process never do."""
+    import math
+    r = random.Random(seed)
+    tool = seam.tool
+    if tool is not None:
+        mon.set_events(tool, 0)
+    done = 0
+    try:
+        for _ in range(n):
+            try:
+                if kind == 'lonlat_to_cell':
+                    a5mod.lonlat_to_cell((r.uniform(-180.0, 180.0), math.degrees(math.asin(r.uniform(-1.0, 1.0)))), r.randint(2, 24))
+                else:
+                    res = r.randint(10, 29)          # fine enough that the n cells are distinct
+                    levels = res - 1
+                    c = (r.randrange(60) << 58) | (r.getrandbits(2 * levels) << (58 - 2 * levels)) | (1 << (58 - 2 * levels - 1))
+                    if kind == 'cell_to_boundary':
+                        a5mod.cell_to_boundary(c, {'segments': 1})
+                    else:
+                        a5mod.cell_to_lonlat(c)
+                done += 1
+            except SimAbort:
+                raise
+            except BaseException:
+                pass
+    finally:
+        if tool is not None:
+            mon.set_events(tool, getattr(seam, 'events', 0))
+    return done
+
+
 def _solo_outcome(a5mod, call):
     global _history_mode
     _history_mode = True                 # quiescent node: one thread only
@@ -317,6 +352,9 @@ def run_seq_node(a5mod, seam, spec):
     clock.active = True
     for call in spec.get('warm', []):
         apply_call(a5mod, call['f'], [canon.dec(a) for a in call['a']])
+    if spec.get('bulk'):
+        b = spec['bulk']
+        bulk_calls(a5mod, seam, b['kind'], b['n'], b['seed'])
     res = [[None] * len(tc) for tc in spec['threads']]
     idx = [0] * len(spec['threads'])
     tsteps = [0] * len(spec['threads'])
@@ -1199,10 +1237,8 @@ class Sched:
         return self
 
 
-def run_threads_node(a5mod, seam, spec, hot=None):
-    """Body of a C16 node.  spec: threads (list of call lists), warm (list of
-    calls run sequentially first), plan (dict), seed, budget, est_len."""
-    rng = random.Random(spec['seed'])
+def _prepare_threads_node(a5mod, seam, spec):
+    """Everything that happens before the threads start: warm-up calls, capacity filler."""
     clock.reset()
     clock.active = True
     warm_out = []
@@ -1210,6 +1246,32 @@ def run_threads_node(a5mod, seam, spec, hot=None):
         args = [canon.dec(a) for a in call['a']]
         outcome, _ = apply_call(a5mod, call['f'], args)
         warm_out.append(outcome)
+    if spec.get('bulk'):
+        b = spec['bulk']
+        bulk_calls(a5mod, seam, b['kind'], b['n'], b['seed'])
+    return warm_out
+
+
+def run_threads_sweep_node(a5mod, seam, spec, ks, hot=None):
+    """A whole single-preemption sweep in one node: the state before the threads start (warm-up calls,
+    capacity filler) is built once, then every preemption point k runs in its own fork of that state --
+    exactly what a fresh node per k would do, without paying for the preparation each time."""
+    from . import forks
+    warm_out = _prepare_threads_node(a5mod, seam, spec)
+    out = []
+    for k in ks:
+        s2 = dict(spec)
+        s2['plan'] = dict(spec['plan'], k=k)
+        r = forks.fork_call(run_threads_node, (a5mod, seam, s2, hot, warm_out), 600.0)
+        out.append((k, r))
+    return out
+
+
+def run_threads_node(a5mod, seam, spec, hot=None, prepared=None):
+    """Body of a C16 node.  spec: threads (list of call lists), warm (list of
+    calls run sequentially first), plan (dict), seed, budget, est_len."""
+    rng = random.Random(spec['seed'])
+    warm_out = prepared if prepared is not None else _prepare_threads_node(a5mod, seam, spec)
     plan = make_plan(spec['plan'], rng, len(spec['threads']), spec.get('est_len', 1000))
     s = Sched(seam, a5mod, spec['threads'], plan, spec['budget'], hot=hot, log_limit=spec.get('log_limit', 4000))
     s.kill = spec.get('kill')
@@ -1458,6 +1520,8 @@ def run_history_node(a5mod, seam, spec):
         elif kind == 'clock_jump':
             clock.jump(op['dt'])
             rec.update({'dt': op['dt']})
+        elif kind == 'bulk':
+            rec.update({'n': bulk_calls(a5mod, seam, op['kind'], op['n'], op['seed']), 'kind': op['kind']})
         elif kind == 'mutate_result':
             ref = op['ref']
             applied = None
